@@ -1291,12 +1291,17 @@ class FortranWriter(LanguageWriter):
                     # We still may need to enforce precedence
                     if (isinstance(parent, UnaryOperation) or
                             (isinstance(parent, BinaryOperation) and
-                             parent.children[1] == node)):
+                             (parent.children[1] == node or
+                              fort_oper == "**" or
+                              precedence(fort_oper) == precedence("==")))):
                         # We need brackets to enforce precedence
                         # as a) a unary operator is performed
-                        # before a binary operator and b) floating
+                        # before a binary operator, b) floating
                         # point operations are not actually
-                        # associative due to rounding errors.
+                        # associative due to rounding errors, c) '**'
+                        # is right associative ('a ** b ** c' is
+                        # 'a ** (b ** c)') and d) relational operators
+                        # are not associative ('a < b == c' is invalid).
                         return f"({lhs} {fort_oper} {rhs})"
             return f"{lhs} {fort_oper} {rhs}"
         except KeyError as error:
@@ -1402,6 +1407,11 @@ class FortranWriter(LanguageWriter):
             else:
                 result = f"{result}_{precision}"
 
+        if (result[0] in "+-" and node.datatype.intrinsic in
+                (ScalarType.Intrinsic.INTEGER, ScalarType.Intrinsic.REAL)
+                and self._sign_needs_parentheses(node, result[0])):
+            # A leading sign is a unary operator in Fortran.
+            return f"({result})"
         return result
 
     def ifblock_node(self, node):
@@ -1503,6 +1513,69 @@ class FortranWriter(LanguageWriter):
             f"{body}"
             f"{self._nindent}enddo\n")
 
+    def _sign_needs_parentheses(self, node, fort_oper):
+        '''Determine whether a unary operation (or a literal with a leading
+        sign, which Fortran parses as a unary operation) must be enclosed
+        in parentheses at its position in the tree.
+
+        :param node: a UnaryOperation or a signed Literal.
+        :type node: :py:class:`psyclone.psyir.nodes.DataNode`
+        :param str fort_oper: the Fortran unary operator ('+', '-' or \
+            '.NOT.').
+
+        :returns: whether parentheses are required.
+        :rtype: bool
+
+        '''
+        # If the parent node is a UnaryOperation or a BinaryOperation
+        # such as '-' or '**' then we need parentheses. This ensures we
+        # don't generate invalid Fortran such as 'a ** -b', 'a - -b' or
+        # '-a ** b' which is '-(a ** b)' instead of intended '(-a) ** b'.
+        # Also consider the grandparent node to avoid generating invalid
+        # Fortran such as 'a + -b * c' instead of intended 'a + (-b) * c'.
+        parent = node.parent
+        if isinstance(parent, UnaryOperation):
+            return True
+        if isinstance(parent, BinaryOperation):
+            try:
+                parent_fort_oper = self.get_operator(parent.operator)
+            except KeyError:
+                # Unsupported operator: reported when the parent is visited.
+                return False
+            # A unary operator applies to everything of higher precedence
+            # that follows it ('+a ** b' is '+(a ** b)' and '.NOT.a == b' is
+            # '.NOT.(a == b)') so parentheses are needed when it is the
+            # first operand of an operator that binds more tightly.
+            # TODO: the same holds for a sign in front of '*' or '/' ('-a * b'
+            # is '-(a * b)') and a signed literal after '*' or '/' ('a * -1.0'
+            # is not standard Fortran) but that existing output is kept.
+            kept_as_is = (fort_oper in ("+", "-") and
+                          parent_fort_oper in ("*", "/"))
+            if (node is parent.children[1] and
+                    not (isinstance(node, Literal) and kept_as_is)):
+                return True
+            if (precedence(parent_fort_oper) > precedence(fort_oper) and
+                    not kept_as_is):
+                return True
+            grandparent = parent.parent
+            # Case: 'a op1 (-b) op2 c'
+            # and precedence(op2) > precedence(op1)
+            # implying that '(-b) op2 c' is not parenthesized.
+            if isinstance(grandparent, BinaryOperation):
+                try:
+                    grandparent_fort_oper = self.get_operator(
+                        grandparent.operator
+                    )
+                except KeyError:
+                    return False
+                if (parent is grandparent.children[1]
+                    and node is parent.children[0]
+                    and (precedence(parent_fort_oper)
+                         > precedence(grandparent_fort_oper))
+                        and fort_oper == "-"):
+                    return True
+        return False
+
     def unaryoperation_node(self, node):
         '''This method is called when a UnaryOperation instance is found in
         the PSyIR tree.
@@ -1519,34 +1592,8 @@ class FortranWriter(LanguageWriter):
         content = self._visit(node.children[0])
         try:
             fort_oper = self.get_operator(node.operator)
-            # If the parent node is a UnaryOperation or a BinaryOperation
-            # such as '-' or '**' then we need parentheses. This ensures we
-            # don't generate invalid Fortran such as 'a ** -b', 'a - -b' or
-            # '-a ** b' which is '-(a ** b)' instead of intended '(-a) ** b'.
-            # Also consider the grandparent node to avoid generating invalid
-            # Fortran such as 'a + -b * c' instead of intended 'a + (-b) * c'.
-            parent = node.parent
-            if isinstance(parent, UnaryOperation):
+            if self._sign_needs_parentheses(node, fort_oper):
                 return f"({fort_oper}{content})"
-            if isinstance(parent, BinaryOperation):
-                parent_fort_oper = self.get_operator(parent.operator)
-                if (node is parent.children[1] or
-                        (parent_fort_oper == "**" and fort_oper == "-")):
-                    return f"({fort_oper}{content})"
-                grandparent = parent.parent
-                # Case: 'a op1 (-b) op2 c'
-                # and precedence(op2) > precedence(op1)
-                # implying that '(-b) op2 c' is not parenthesized.
-                if isinstance(grandparent, BinaryOperation):
-                    grandparent_fort_oper = self.get_operator(
-                        grandparent.operator
-                    )
-                    if (parent is grandparent.children[1]
-                        and node is parent.children[0]
-                        and (precedence(parent_fort_oper)
-                             > precedence(grandparent_fort_oper))
-                            and fort_oper == "-"):
-                        return f"({fort_oper}{content})"
             return f"{fort_oper}{content}"
 
         except KeyError as error:
